@@ -1849,3 +1849,10 @@ impl core::fmt::Debug for GlyphBuffer {
             .finish()
     }
 }
+
+/// Verification hooks (compiled only with `--cfg rb_verif`).
+#[cfg(rb_verif)]
+#[allow(unused_imports, dead_code, missing_docs)]
+pub mod verif_hooks {
+    use super::*;
+}
